@@ -83,6 +83,10 @@ func judge(spec *clientSpec, pol *policy, d *dlog) ([]finding, jstats) {
 	var runStartList, prevRunStartList []string
 	signErrorInRun, signErrorInPrevRun := false, false
 	runFlagged := false // a request of the current run was already reported as unlisted
+	// once the client has been seen working from a stale list, it keeps doing so
+	// until the next method-terminating FAILURE gives it a new one
+	var staleList []string
+	staleKey := ""
 	// RSA certificates whose SHA-2 offer was not accepted and for which the
 	// documented ssh-rsa-cert-v01 retry is still outstanding (key blob -> event)
 	compatDue := map[string]int{}
@@ -99,6 +103,9 @@ func judge(spec *clientSpec, pol *policy, d *dlog) ([]finding, jstats) {
 			if e.App == "sign-error" {
 				signErrorInRun = true
 				st["signing_errors"]++
+				// a local signing error ends the run over the signers at once: the
+				// ssh-rsa-cert-v01 retry that was still due is not expected any more
+				clear(compatDue)
 			}
 		case "CB":
 			callbacks++
@@ -140,6 +147,7 @@ func judge(spec *clientSpec, pol *policy, d *dlog) ([]finding, jstats) {
 				}
 				if !isQuery {
 					listTerm = e.Methods
+					staleList, staleKey = nil, ""
 					lastTermFailurePartial = e.Partial
 					if e.Partial {
 						st["partial_success_sent"]++
@@ -268,13 +276,20 @@ func judge(spec *clientSpec, pol *policy, d *dlog) ([]finding, jstats) {
 						// and that method either was a RetryableAuthMethod (whose last inner
 						// run ended without a server FAILURE) or ended in a local signing
 						// error: the newer list the server sent in between was dropped.
+						classified := false
 						if pm := spec.method(prevRunMethod); pm != nil && !sameMethodAsPrev && slices.Contains(prevRunStartList, m.Method) {
 							switch {
-							case pm.wrapped:
-								k = "method-from-stale-list:after-retryable-method"
+							case spec.anyWrapped(prevRunMethod):
+								k, classified = "method-from-stale-list:after-retryable-method", true
 							case signErrorInPrevRun:
-								k = "method-from-stale-list:after-signing-error"
+								k, classified = "method-from-stale-list:after-signing-error", true
 							}
+							if classified {
+								staleList, staleKey = prevRunStartList, k
+							}
+						}
+						if !classified && staleList != nil && slices.Contains(staleList, m.Method) {
+							k = staleKey
 						}
 						runFlagged = true
 						add(k, i, map[string]any{"last_list": listTerm, "last_list_any": listAny, "list_before_previous_method": prevRunStartList, "previous_method": prevRunMethod})
